@@ -335,10 +335,10 @@ def run(ctx: Ctx) -> None:
     driver_ok = lean_obligations(ctx)
     replay_findings(ctx)
     if driver_ok:
-        tie_escape(ctx)
-        tie_fill(ctx)
-        tie_wraplines_para(ctx)
-        tie_filltext(ctx)
+        ctx.guard("tie escape", tie_escape)
+        ctx.guard("tie fill", tie_fill)
+        ctx.guard("tie wrapLines/wrapPara", tie_wraplines_para)
+        ctx.guard("tie fillText", tie_filltext)
     else:
         search(ctx)
     sentence_oracle(ctx, ctx.scale(4000, 60000))
